@@ -1,14 +1,17 @@
 #!/bin/bash
-# C09 = schedules (loom) + histories (explicit-state BFS). Exit: worst of the two.
+# C09 = schedules (loom) + histories (explicit-state BFS) + the same pool model under a second
+# engine (stateright) whose state counts must equal the hand-rolled explorer's. Exit: worst of the three.
 set -u
 ROOT="$(cd "$(dirname "${BASH_SOURCE[0]}")/.." && pwd)"
 export VERIF_ROOT="$ROOT" CARGO_NET_OFFLINE=true
 export CARGO_TARGET_DIR="${CARGO_TARGET_DIR:-$ROOT/harness/target}"
 tier="${1:-quick}"
-out="$(cd "$ROOT/harness" && cargo build --release --offline --bin vloom --bin c09 2>&1)" || { echo "$out" | tail -30 >&2; echo "MACHINERY-ERROR: harness build failed for C09" >&2; exit 2; }
-rm -f "$ROOT/evidence/C09.loom.json"
+out="$(cd "$ROOT/harness" && cargo build --release --offline --bin vloom --bin vsr --bin c09 2>&1)" || { echo "$out" | tail -30 >&2; echo "MACHINERY-ERROR: harness build failed for C09" >&2; exit 2; }
+rm -f "$ROOT/evidence/C09.loom.json" "$ROOT/evidence/C09.stateright.json"
 "$CARGO_TARGET_DIR/release/vloom"; r1=$?
+"$CARGO_TARGET_DIR/release/vsr" "$tier"; r3=$?
 "$CARGO_TARGET_DIR/release/c09" "$tier"; r2=$?
-if [ $r1 -eq 1 ] || [ $r2 -eq 1 ]; then exit 1; fi
+if [ $r1 -eq 1 ] || [ $r2 -eq 1 ] || [ $r3 -eq 1 ]; then exit 1; fi
 if [ $r1 -ne 0 ]; then exit $r1; fi
+if [ $r3 -ne 0 ]; then exit $r3; fi
 exit $r2
